@@ -65,3 +65,57 @@ def fit_stages_det(kind, data_file, run_name, data_dir, fn_set, compl, stages, o
         return orig(fcn_i, *a, **k)
     ta.optimise_fun = seeded
     fit_stages(kind, data_file, run_name, data_dir, fn_set, compl, stages, seed=0, opts=opts)
+
+
+# ----------------------------------------------------------------------------- C06: combine_DL on synthetic tables
+def _tok(v):
+    return {1000: "inf", -1: "nan"}.get(v, "%.7e" % v)
+
+
+def combine_batch(tables_path, out_path, workdir):
+    """For every table (list of variants {idx,nll,plen,tlen}; U uniques) write the stage's input files,
+    run the real combine_DL.main on all ranks, collect final_<n>.dat.  Results written by rank 0."""
+    import types, shutil, io, contextlib
+    from mpi4py import MPI
+    comm = MPI.COMM_WORLD
+    rank = comm.Get_rank()
+    import esr.fitting.combine_DL as cdl
+    with open(tables_path) as f:
+        tables = json.load(f)
+    n = 3
+    like = types.SimpleNamespace(fn_dir=os.path.join(workdir, "lib"), base_out_dir=os.path.join(workdir, "out"),
+                                 out_dir=os.path.join(workdir, "out", "o"), temp_dir=os.path.join(workdir, "out", "t"),
+                                 is_mse=False, fnprior_prefix="aifeyn_", combineDL_prefix="combine_DL_", final_prefix="final_")
+    results = []
+    for t in tables:
+        if rank == 0:
+            shutil.rmtree(workdir, ignore_errors=True)
+            os.makedirs(os.path.join(like.fn_dir, "compl_%d" % n))
+            os.makedirs(like.out_dir)
+            os.makedirs(like.temp_dir)
+            d = os.path.join(like.fn_dir, "compl_%d" % n)
+            with open(os.path.join(d, "unique_equations_%d.txt" % n), "w") as f:
+                f.write("".join("u%d*x\n" % u for u in range(t["U"])))
+            with open(os.path.join(d, "all_equations_%d.txt" % n), "w") as f:
+                f.write("".join("v%d+x\n" % (k + 1) for k in range(len(t["tab"]))))
+            with open(os.path.join(d, "aifeyn_%d.txt" % n), "w") as f:
+                f.write("".join("%s\n" % _tok(v["tlen"]) for v in t["tab"]))
+            with open(os.path.join(like.out_dir, "codelen_matches_comp%d.dat" % n), "w") as f:
+                for k, v in enumerate(t["tab"]):
+                    f.write(" ".join([_tok(v["nll"]), _tok(v["plen"]), "%.7e" % v["idx"], "%.7e" % (k + 1), "%.7e" % 0, "%.7e" % 0, "%.7e" % 0]) + "\n")
+        comm.Barrier()
+        err = None
+        try:
+            with contextlib.redirect_stdout(io.StringIO()):
+                cdl.main(n, like)
+        except Exception as e:                       # the stage must not raise on any table
+            err = "%s: %s" % (type(e).__name__, e)
+        errs = comm.gather(err, root=0)
+        if rank == 0:
+            p = os.path.join(like.out_dir, "final_%d.dat" % n)
+            txt = open(p).read() if os.path.exists(p) else None
+            results.append({"id": t["id"], "final": txt, "errors": [e for e in errs if e]})
+        comm.Barrier()
+    if rank == 0:
+        with open(out_path, "w") as f:
+            json.dump(results, f)
